@@ -35,16 +35,27 @@ ASSUMPTIONS = [
 
 def configs(tier):
     out = []
-    wide = [(2, 3, 1, 1, 1), (4, 5, 1, 2, 2), (4, 7, 2, 1, 1), (4, 2, 1, 2, 1), (3, 9, 1, 1, 2)]
+    wide = [(2, 3, 1, 1, 1), (4, 5, 1, 2, 2), (4, 7, 2, 1, 1), (4, 2, 1, 2, 1), (3, 9, 1, 1, 2), (2, 8, 1, 1, 1)]
     if tier != "quick":
         wide += [(6, 4, 1, 3, 2), (2, 1, 2, 2, 2), (8, 6, 1, 2, 2), (1, 3, 1, 1, 1)]
     for slots, ml, ways, sc, tc in wide:
         out.append({"kind": "wide", "slots": slots, "max_latency": ml, "ways": ways, "start_count": sc, "stop_count": tc})
-    for slots, ml, ways in ([(2, 3, 1), (3, 6, 2)] if tier == "quick" else [(1, 2, 1), (2, 3, 1), (3, 6, 2), (4, 9, 1), (5, 1, 1)]):
+    # (max_latency values include exact powers of two: the widest latency "within max_latency" then needs one more bit)
+    for slots, ml, ways in ([(2, 3, 1), (3, 6, 2), (2, 4, 1)] if tier == "quick" else [(1, 2, 1), (2, 3, 1), (3, 6, 2), (2, 4, 1), (4, 9, 1), (5, 1, 1), (2, 8, 1)]):
         out.append({"kind": "fifo", "slots": slots, "max_latency": ml, "ways": ways})
-    for slots, ml, ways in ([(2, 3, 1), (3, 5, 2)] if tier == "quick" else [(1, 2, 1), (2, 3, 1), (3, 5, 2), (4, 9, 2), (4, 1, 1)]):
+    for slots, ml, ways in ([(2, 3, 1), (3, 5, 2), (2, 4, 1)] if tier == "quick" else [(1, 2, 1), (2, 3, 1), (3, 5, 2), (2, 4, 1), (4, 9, 2), (4, 1, 1), (3, 8, 1)]):
         out.append({"kind": "tagged", "slots": slots, "max_latency": ml, "ways": ways})
     return out
+
+
+def width_obligations(ctx, cfg, ew, samples):
+    """'for latencies within max_latency': the modular difference of epochs is the true latency only if the epoch counter
+    (and the histogram's sample argument) can hold max_latency itself — the link between `sample = age mod 2^w`, which the
+    netlist obligations prove, and the property's `sample = age for age <= max_latency`."""
+    ml = cfg["max_latency"]
+    ctx.structural("epoch_counter_holds_max_latency", (1 << ew) > ml, "finite evaluation (register widths of the elaborated design)", f"epoch counter has {ew} bits, max_latency = {ml}")
+    ws = sorted({len(s) for s in samples})
+    ctx.structural("histogram_sample_holds_max_latency", all((1 << w) > ml for w in ws), "finite evaluation (register widths of the elaborated design)", f"sample widths {ws}, max_latency = {ml}")
 
 
 def run(cfg, ctx):
@@ -174,6 +185,7 @@ def run(cfg, ctx):
     P = lambda name, post: ctx.prove(name, post, pre=pre, assume=A, hw=hw)
     ctx.prove("init.wf", ts.at_init(z3.And(*pres, ghost_inv(False))))
     P("epoch.step", hw.nxt(epoch_s) == epoch + 1)
+    width_obligations(ctx, cfg, EW, [a.data_in.sample for a in impl.histogram.add])
     for k in range(ways):
         pw = per_way[k]
         P(f"way{k}.step.wf", pw["wf"](pw["rep"](True)))
@@ -267,6 +279,7 @@ def run_tagged(cfg, ctx, dm):
     ctx.prove("init.wf", ts.at_init(z3.And(inv(False), taken == 0)))
     P("step.wf", inv(True))
     P("epoch.step", hw.nxt(epoch_s) == epoch + 1)
+    width_obligations(ctx, cfg, EW, [a.data_in.sample for a in dut.histogram.add])
     tk_n = hw.nxt(taken_s)
     for s in range(slots):
         started = z3.Or(*[z3.And(r, a == s) for r, a in starts])
